@@ -2,6 +2,7 @@ package vaxis
 
 import (
 	"strings"
+	"unicode/utf8"
 
 	"github.com/mattn/go-runewidth"
 	"github.com/rivo/uniseg"
@@ -37,4 +38,29 @@ func gwidth(s string, method graphemeWidthMethod) int {
 		}
 		return total
 	}
+}
+
+// joinsCluster reports whether there is no grapheme cluster boundary between
+// prev and next when one is written right after the other, that is, whether a
+// receiver that segments the text itself sees the end of prev and the start of
+// next as parts of one cluster
+func joinsCluster(prev string, next string) bool {
+	if prev == "" || next == "" {
+		return false
+	}
+	if a, b := prev[len(prev)-1], next[0]; a < utf8.RuneSelf && b < utf8.RuneSelf {
+		// The only ASCII pair without a boundary in between
+		return a == '\r' && b == '\n'
+	}
+	var (
+		s       = prev + next
+		cluster string
+		state   = -1
+		n       = 0
+	)
+	for n < len(prev) {
+		cluster, s, _, state = uniseg.FirstGraphemeClusterInString(s, state)
+		n += len(cluster)
+	}
+	return n > len(prev)
 }
